@@ -33,7 +33,64 @@ func opsFrom(coefs []int64, emin, emax int) []Operand {
 	return out
 }
 
+// longOperands is the LONG family: coefficients of 129..300 digits, so that a single rounding discards
+// more digits than the 128-entry power-of-ten table holds (tableExp10 then computes into its scratch
+// argument), with discarded tails just below, at and just above one half, all-nines carries included.
+func longOperands() []Operand {
+	var out []Operand
+	for _, L := range []int{129, 131, 140, 200, 300} {
+		for _, head := range []string{"123456789", "999999999", "100000000"} {
+			for _, tail := range []string{"23", "50", "49", "51", "99", "00"} {
+				// head + tail[0] + filler... + tail[1]
+				fill := byte('3')
+				switch tail {
+				case "50", "00":
+					fill = '0'
+				case "49", "99":
+					fill = '9'
+				case "51":
+					fill = '0'
+				}
+				b := []byte(head)
+				b = append(b, tail[0])
+				for len(b) < L-1 {
+					b = append(b, fill)
+				}
+				b = append(b, tail[1])
+				c := bigOf(string(b))
+				out = append(out, FinBig(c, int32(-L+1), false))
+				if L == 140 {
+					out = append(out, FinBig(c, int32(-L+1), true), FinBig(c, 3, false))
+				}
+			}
+		}
+	}
+	return out
+}
+
+// longPartners are second operands that produce more than 128 discarded digits in binary operations.
+func longPartners() []Operand {
+	seventy := bigOf("1234567890123456789012345678901234567890123456789012345678901234567891")
+	return []Operand{FinBig(seventy, -69, false), FinBig(seventy, -30, true), Fin(1, 150, false), Fin(5, -1, false),
+		FinBig(bigOf("9999999999999999999999999999999999999999999999999999999999999999999999"), -70, false)}
+}
+
 func buildArithSpace(tier string, seed int64) arithSpace {
+	s := buildArithSpace0(tier, seed)
+	lo := longOperands()
+	s.Us = append(s.Us, lo...)
+	for i, o := range lo {
+		if i%6 == 0 || tier == "thorough" {
+			s.Xs = append(s.Xs, o)
+		}
+	}
+	s.Xs = append(s.Xs, longPartners()...)
+	s.Ys = append(s.Ys, longPartners()...)
+	s.Desc += "; LONG family: 129..300-digit coefficients with tails below/at/above one half in U (and a share in X), 70-digit and 1E+150 partners in X and Y"
+	return s
+}
+
+func buildArithSpace0(tier string, seed int64) arithSpace {
 	var s arithSpace
 	if tier == "thorough" {
 		// every coefficient below 1000 (+ the long selection) in the first position
